@@ -93,12 +93,11 @@ func H_field() {
 			vAssume(vNot(vEqStr(names[i], names[j]))) // field names of one struct are distinct
 		}
 		fields = append(fields, types.NewField(token.NoPos, pkg, names[i], vType(10+i), false))
-		prevented[i] = vConcBool(vBool(fmt.Sprintf("prevented%d", i)))
-		if prevented[i] {
-			tags = append(tags, `wire:"-"`)
-		} else {
-			tags = append(tags, `json:"x"`)
-		}
+		// struct tags in several shapes; a field is prevented exactly when the value of its wire key is "-"
+		tagKind := vConc(vInt(fmt.Sprintf("tag%d", i), 0, 6))
+		tag := []string{`wire:"-"`, `json:"x" wire:"-"`, `wire:"-" json:"x,omitempty"`, `json:"x"`, `wire:"keep"`, ``, `json:"-"`}[tagKind]
+		prevented[i] = tagKind <= 2
+		tags = append(tags, tag)
 	}
 	st := types.NewStruct(fields, tags)
 	req := vIdent("request", n)
